@@ -21,7 +21,8 @@
 //!
 //! Modes: controlled (step controller over the pause points `lookup.add.enter`,
 //! `lookup.add.after_read_last` (only if a calibration run shows that parking there does not
-//! block `publish`), `lookup.publish.before_services` and a harness-side point inside the recording
+//! block `publish`), `lookup.publish.before_services`, `lookup.publish.before_store_last`
+//! (only if calibration shows that parking there does not block `add`) and a harness-side point inside the recording
 //! services' `publish` callback = "slow service"; all interleavings of small scenarios by
 //! DFS, seeded random schedules for larger ones), stress (free-running threads, seeded
 //! sleeps at the pause points in half of the rounds), Miri (a few tiny un-gated rounds).
@@ -50,6 +51,7 @@ use serde_json::{Value, json};
 const P_ADD: &str = "lookup.add.after_read_last";
 const P_ADD_ENTER: &str = "lookup.add.enter";
 const P_PUB: &str = "lookup.publish.before_services";
+const P_STORE: &str = "lookup.publish.before_store_last";
 const P_SVC: &str = "svc.publish";
 
 static SEQ: AtomicU64 = AtomicU64::new(0);
@@ -373,6 +375,24 @@ fn calibrate() -> (bool, bool) {
     (reached, protected)
 }
 
+/// Parks a publisher at `lookup.publish.before_store_last` and lets an adder run: does it
+/// finish?  (With correct locking it cannot: the publisher still holds the services lock.)
+fn calibrate_store() -> (bool, bool) {
+    let sc = Scenario { filter: Filter::None, init: vec![Op::Add(0), Op::Add(1)], threads: vec![], slow_services: false };
+    let w = World::new(&sc);
+    w.exec(99, &Op::Add(0));
+    let mut run = sched::Run::new(&[P_STORE]);
+    run.block_wait = Duration::from_millis(400);
+    let w1 = w.clone();
+    let a = run.spawn(move || w1.exec(0, &Op::Publish(1)));
+    let w2 = w.clone();
+    let b = run.spawn(move || w2.exec(1, &Op::Add(1)));
+    let reached = matches!(run.step(a), sched::Step::Parked(P_STORE));
+    let protected = reached && run.step(b) == sched::Step::Blocked;
+    run.finish(Duration::from_secs(30));
+    (reached, protected)
+}
+
 fn run_controlled(sc: &Scenario, block_wait: Duration, mut pick: impl FnMut(&[usize]) -> usize) -> Outcome {
     let w = World::new(sc);
     const CTL: usize = 99;
@@ -613,7 +633,7 @@ fn main() {
             let schedule: Vec<usize> = schedule.iter().map(|x| x.as_u64().unwrap() as usize).collect();
             let mut i = 0;
             let has = |n: &str| r["gating"].as_array().map(|g| g.iter().any(|x| x == n)).unwrap_or(true);
-            *GATING.lock().unwrap() = [P_ADD_ENTER, P_ADD, P_PUB, P_SVC].into_iter().filter(|n| has(n)).collect();
+            *GATING.lock().unwrap() = [P_ADD_ENTER, P_ADD, P_PUB, P_STORE, P_SVC].into_iter().filter(|n| has(n)).collect();
             let out = run_controlled(&sc, Duration::from_millis(300), |parked| {
                 let want = schedule.get(i).copied();
                 i += 1;
@@ -647,8 +667,20 @@ fn main() {
     let (reached, protected) = calibrate();
     rep.count("calibration.add_window_reached", reached as u64);
     rep.count("calibration.add_window_lock_protected", protected as u64);
-    *GATING.lock().unwrap() = if reached && !protected { vec![P_ADD_ENTER, P_ADD, P_PUB, P_SVC] } else { vec![P_ADD_ENTER, P_PUB, P_SVC] };
-    rep.set_extra("calibration", json!({"add_window_pause_point_reached": reached, "add_window_blocks_publish": protected, "gating": GATING.lock().unwrap().clone()}));
+    let (reached2, protected2) = calibrate_store();
+    rep.count("calibration.store_window_reached", reached2 as u64);
+    rep.count("calibration.store_window_lock_protected", protected2 as u64);
+    {
+        let mut g = vec![P_ADD_ENTER, P_PUB, P_SVC];
+        if reached && !protected {
+            g.push(P_ADD);
+        }
+        if reached2 && !protected2 {
+            g.push(P_STORE);
+        }
+        *GATING.lock().unwrap() = g;
+    }
+    rep.set_extra("calibration", json!({"add_window_pause_point_reached": reached, "add_window_blocks_publish": protected, "store_window_pause_point_reached": reached2, "store_window_blocks_add": protected2, "gating": GATING.lock().unwrap().clone()}));
     let scenarios = base_scenarios();
     for sc in &scenarios {
         controlled(&rep, sc, a.pick(150, 20_000), None, block_wait);
